@@ -78,10 +78,10 @@ def spaces(tier):
     if tier == "quick":
         five = LEAVES[:5]
         five1 = five + size1(five)
-        probe = LEAVES + [e for e in size1(["i", "2"]) if "(" not in e]
+        probe = LEAVES + [e for e in size1(["i", "2"]) if "(" not in e and "**" not in e][:10]
         return [("s1xs1", five1, five1, False),
                 ("solve", red1 + ["j", "i + j", "i - j", "j - i", "2 * j"], red1, True),
-                ("s2xs1", size2(red + ["3"], red, funcs=False), probe, False)]
+                ("s2xs1", size2(["i", "2", "3"], red, funcs=False), probe, False)]
     mid = ["i", "j", "n", "2"]
     mid1 = mid + size1(mid)
     return [("s1xs1", full1, full1, True),
